@@ -8,7 +8,7 @@ ID = "C17"
 LEVEL = "exploration"
 RULE = ("all 11 FlowUnits x 15 HydParam x darcy_weisbach{F,T} and 11 FlowUnits x 8 QualParam x 4 MassUnits x "
         "reaction_order{0,1,2}; per case: containers {float,int,list,ndarray,dict} x value alphabet; oracle = inverse, "
-        "linearity, container preservation, factor == reference table. non-trivial: reference factor != 1")
+        "linearity, container preservation, factor == reference table (thorough: 14 values from 1e-150 to 1e9 and a 2-D array). non-trivial: reference factor != 1")
 ASSUMPTIONS = ["reference factors typed from physical definitions: gal=3.785411784 L, Imp gal=4.54609 L, ft=0.3048 m, "
                "acre-ft=43560 ft3, psi=0.3048/0.4333 m, hp=745.699872 W, in=0.0254 m",
                "zero-order wall coefficient in US units: mass/ft2/day -> kg/m2/s, i.e. divided by 0.3048^2 m2 per ft2"]
@@ -26,6 +26,7 @@ HYD = ["Elevation", "Demand", "HydraulicHead", "Pressure", "Length", "PipeDiamet
 QUAL = ["Quality", "LinkQuality", "ReactionRate", "Concentration", "BulkReactionCoeff", "WallReactionCoeff",
         "SourceMassInject", "WaterAge"]
 VALUES = [0.0, 1.0, -2.5, 1e-6, 12345.678]
+VALUES_T = VALUES + [-1.0, 3.0, 0.1, 1e-12, 1e9, -7e5, 2.0 ** 0.5, 1e-300 ** 0.5, 86400.0]        # 14 values (int where integral)
 
 
 def ref_hyd(param, fu, dw):
@@ -80,6 +81,14 @@ def ref_qual(param, fu, mass, order):
 
 
 def cases(tier):
+    out = _cases()
+    if tier == "thorough":
+        for c in out:
+            c["values"] = "T"
+    return out
+
+
+def _cases():
     out = []
     for fu in FLOW:
         for p in HYD:
@@ -98,6 +107,7 @@ def close(a, b, rel=1e-12):
 
 def run_case(spec):
     import numpy as np
+    VALUES = VALUES_T if spec.get("values") == "T" else globals()["VALUES"]
     from wntr.epanet import util as U
     fu = U.FlowUnits[spec["flow_units"]]
     viol = []
@@ -153,7 +163,7 @@ def run_case(spec):
     lst = list(VALUES)
     arr = np.array(VALUES)
     dct = {"n%d" % (len(VALUES) - i): v for i, v in enumerate(VALUES)}          # keys in descending order
-    dint = {(7 * i + 3) % 11: v for i, v in enumerate(VALUES)}                   # integer keys in no order
+    dint = {(7 * i + 3) % 17: v for i, v in enumerate(VALUES)}                   # integer keys in no order
     for name, fn in (("to_si", to), ("from_si", fr)):
         scal = [float(fn(v)) for v in VALUES]
         for cname, cont in (("list", lst), ("ndarray", arr), ("dict", dct), ("dict-intkeys", dint), ("intlist", [0, 1, 3])):
@@ -173,6 +183,15 @@ def run_case(spec):
                     all(close(float(out[k]), e) for k, e in zip(cont, scal))
             if not ok:
                 bad("container-%s" % cname, "%s(%s) returned %r" % (name, cname, out))
+        if spec.get("values") == "T":
+            a2 = np.array(VALUES[:12]).reshape(3, 4)
+            n += 1
+            try:
+                o2 = fn(a2)
+                if not (isinstance(o2, np.ndarray) and o2.shape == (3, 4) and all(close(float(o), float(fn(float(e)))) for o, e in zip(o2.ravel(), a2.ravel()))):
+                    bad("container-ndarray2d", "%s(3x4 array) returned %r" % (name, o2))
+            except Exception as e:
+                bad("container-ndarray2d", "%s raises %s: %s on a 3x4 array" % (name, type(e).__name__, e))
         # the inputs must not be modified in place
         if lst != VALUES or list(arr) != VALUES or list(dct.values()) != VALUES or list(dint.values()) != VALUES:
             bad("inplace", "%s modified its argument" % name)
